@@ -191,6 +191,13 @@ SPEC_NAMES = {"old", "at", "result", "forall", "exists", "implies", "iff", "ite"
 # ---------------------------------------------------------------------------------------------- call dispatch
 def call(self, e, st):
     f = e.func
+    cm = getattr(self.cur_contract, "call_models", None) if getattr(self, "cur_contract", None) else None
+    if cm and not self.spec:
+        key = ast.unparse(f)
+        if key in cm:
+            self.assume_log(f"call model: {key}(...) evaluates to `{cm[key]}`")
+            yield self.spec_eval(cm[key], st), st
+            return
     # specification functions
     if isinstance(f, ast.Name) and self.spec and (f.id in SPEC_NAMES or f.id in self.reg.spec_fns) \
             and f.id not in st.env:
@@ -666,9 +673,12 @@ def list_extend(self, st, lst, view):
     off = self.list_off(st, lst)
     arr = fresh("ext", arr0.sort())
     i = fresh("i", z3.IntSort())
-    st.assume(z3.ForAll([i], z3.Implies(i < off + n0, z3.Select(arr, i) == z3.Select(arr0, i))))
-    st.assume(z3.ForAll([i], z3.Implies(z3.And(0 <= i, i < m), z3.Select(arr, off + n0 + i)
-                                        == self.coerce(self.guess_tuple(view.at(i), st), lst.t.elt, st).z)))
+    zero_off = z3.is_int_value(off) and off.as_long() == 0
+    pos = (lambda x: x) if zero_off else (lambda x: off + x)
+    # absolute positions, so that Select(arr, i) is a usable trigger
+    st.assume(z3.ForAll([i], z3.Implies(i < n0, z3.Select(arr, pos(i)) == z3.Select(arr0, pos(i)))))
+    st.assume(z3.ForAll([i], z3.Implies(z3.And(n0 <= i, i < n0 + m), z3.Select(arr, pos(i))
+                                        == self.coerce(self.guess_tuple(view.at(i - n0), st), lst.t.elt, st).z)))
     self.list_set_arr(st, lst, arr)
     self.list_set_len(st, lst, n0 + m)
 
